@@ -23,6 +23,16 @@ func steps(r *sim.R, quick, thorough int) int {
 
 // Lookup returns the engine for a property id, or nil.
 func Lookup(prop string) Engine {
+	if prop == "C10" {
+		// E1 histories, and merges into destinations that hold references to their own sections
+		return func(r *sim.R) {
+			if r.T.Weighted([]int{7, 1}, "c10-family") == 1 {
+				world.RefMerge(r)
+				return
+			}
+			world.Run(r, world.Flavours["C10"], steps(r, 12, 30))
+		}
+	}
 	if f, ok := world.Flavours[prop]; ok && prop != "C14" {
 		return func(r *sim.R) { world.Run(r, f, steps(r, 12, 30)) }
 	}
